@@ -1,9 +1,10 @@
 import DustVerif.Model.Tree
-/-! The entity-tree operations as they were BEFORE fixes/D40.patch, fixes/D-tree-1.patch and fixes/D-tree-2.patch
+/-! The operations as they were BEFORE fixes/D40.patch, fixes/D-tree-1.patch, fixes/D-tree-2.patch, fixes/D33.patch, fixes/D33b.patch
     (regression witnesses only: the `…_counterexample` theorems of C35 / C36 and the as-is replays run on these).
     * D40: every counter is incremented unchecked — the debug profile panics at the rail, the release profile wraps;
     * D-tree-1: `delete_contentfilteredtopic` does nothing, `delete_contained_entities` keeps the content-filtered topics;
-    * D-tree-2: `delete_topic` does not see content-filtered topics. -/
+    * D-tree-2: `delete_topic` does not see content-filtered topics;
+    * D33 / D33b: `wopOld` (unregister never forgets, keyless lookup not refused). -/
 namespace DustVerif.Tree
 
 /-- dcps_participant_factory.rs:40 + domain_participant_factory.rs:374 (`fetch_add` wraps, never panics) -/
@@ -140,6 +141,54 @@ def deleteContainedOld (s : St) (ph : Nat) : St × Res :=
               readers := s.readers.filter (notReaderOfPart p.uid)
               topics := s.topics.filter (notTopicOfPart p.uid) }, .ok)
 
+/-- one instance operation on a writer that was found, as the code was BEFORE fixes/D33.patch and fixes/D33b.patch:
+    `unregister_instance` never forgets the instance, `lookup_instance` has no keyless check.
+    Assumptions (stated in the property module): history/resource limits other than max_instances never
+    refuse a write, no matched reliable reader withholds an acknowledgement. -/
+def wopOld (w : Writer) (o : WOp) : Writer × Res :=
+  match o with
+  | .register k =>
+    if !w.enabled then (w, .err .notEnabled)                    -- data_writer_entity.rs:226
+    else if !w.keyed then (w, .err .illegalOperation)          -- :233
+    else if w.registered.contains k then (w, .inst (some k))   -- :239 (only the time stamp changes)
+    else if hasRoom w then ({ w with registered := w.registered ++ [k] }, .inst (some k))  -- :245
+    else (w, .err .outOfResources)                             -- :252
+  | .unregister k =>
+    if !w.enabled then (w, .err .notEnabled)                    -- :266
+    else if !w.keyed then (w, .err .illegalOperation)          -- :273
+    else if w.registered.contains k then (w, .ok)              -- :278 the entry STAYS in the list (D33)
+    else (w, .err .badParameter)                               -- :283
+  | .dispose k =>
+    if !w.enabled then (w, .err .notEnabled)                    -- :179
+    else if !w.keyed then (w, .err .illegalOperation)          -- :186
+    else if w.registered.contains k then (w, .ok)              -- :192
+    else (w, .err .badParameter)                               -- :197
+  | .lookup k =>
+    if !w.enabled then (w, .err .notEnabled)                    -- writer_methods.rs:271
+    -- no keyless check (D33); writer_methods.rs:290
+    else if w.registered.contains (keyOfSample w k) then (w, .inst (some (keyOfSample w k)))
+    else (w, .inst none)
+  | .write k =>
+    if !w.enabled then (w, .err .notEnabled)                    -- writer_methods.rs:327
+    else if w.registered.contains (keyOfSample w k) then (w, .ok)     -- data_writer_entity.rs:79
+    else if hasRoom w then ({ w with registered := w.registered ++ [keyOfSample w k] }, .ok)  -- :84
+    else (w, .err .outOfResources)                             -- :91
+
+/-- `instOp` with the pre-patch entity-level operation -/
+def instOpOld (s : St) (w : EndRef) (o : WOp) : St × Res :=
+  match resolveWriter s w with
+  | none => (s, .err .alreadyDeleted)
+  | some (p, x, wr) =>
+    if needsTopic o && (findTopic s p.uid wr.topic).isNone then die s
+    else
+      ({ s with writers := updFirst (isWriterE p.uid x.uid w.ent) (constW (wopOld wr o).1) s.writers }, (wopOld wr o).2)
+
+/-- the tree as patched, the writer instance calls as before fixes/D33, D33b (= `main` when D33 was open) -/
+def stepInstOld (s : St) (op : Op) : St × Res :=
+  match op with
+  | .inst w o => instOpOld s w o
+  | op => step s op
+
 def stepOld (s : St) (op : Op) : St × Res :=
   match op with
   | .factoryQos a => ({ s with autoenable := a }, .ok)
@@ -151,7 +200,7 @@ def stepOld (s : St) (op : Op) : St × Res :=
   | .deleteSub via r => deleteSub s via r
   | .createTopic ph n k => createTopicOld s ph n k
   | .deleteTopic via r => deleteTopicOld s via r
-  | .createCft r n => createCftOld s r n
+  | .createCft r n _ => createCftOld s r n
   | .deleteCft ph n => deleteCftOld s ph n
   | .createWriter r t m c => createWriterOld s r t m c
   | .deleteWriter via w => deleteWriter s via w
@@ -174,7 +223,7 @@ def stepOld (s : St) (op : Op) : St × Res :=
       | none => false) s
   | .probeWriter w => probe (resolveWriter s w).isSome s
   | .probeReader w => probe (resolveReader s w).isSome s
-  | .inst w o => instOp s w o
+  | .inst w o => instOpOld s w o
 
 def stepDOld (s : St) (op : Op) : St × Res := if s.dead then (s, .panic) else stepOld s op
 
